@@ -28,9 +28,11 @@ def gen_case(rng):
         for nm, k in pk.items():
             out[nm] = nm if k in ("var", "const") else nm + "()"
         for sc in scopes:
-            for nm in sc:
-                out[nm] = nm
-        # a local named like a universe function/const shadows it; otherwise universe names are not int expressions
+            for nm, kd in sc.items():
+                if kd == "int":
+                    out[nm] = nm
+                else:
+                    out.pop(nm, None)      # a local type (or type parameter) shadows the outer name
         return out
 
     def expr():
@@ -47,7 +49,17 @@ def gen_case(rng):
     def block(depth, ind):
         for _ in range(rng.choice([1, 2, 3])):
             r = rng.random()
-            if r < 0.55 or depth >= 2:
+            if r < 0.12:
+                nm = fresh_name()
+                lines.append("%sconst %s = %d" % (ind, nm, next(lits)))
+                scopes[-1][nm] = "int"
+                lines.append("%sacc += %s * %d" % (ind, nm, next(lits)))
+            elif r < 0.22:
+                nm = fresh_name()
+                lines.append("%stype %s int" % (ind, nm))
+                scopes[-1][nm] = "type"
+                lines.append("%sacc += int(%s(%d))" % (ind, nm, next(lits)))
+            elif r < 0.55 or depth >= 2:
                 nm = fresh_name()
                 lines.append("%s%s := %s" % (ind, nm, expr()))
                 scopes[-1][nm] = "int"
@@ -74,6 +86,9 @@ def gen_case(rng):
                 lines.append(ind + "}")
 
     params = []
+    tparam = None
+    if rng.random() < 0.2:
+        tparam = fresh_name(); scopes[-1][tparam] = "type"
     for _ in range(rng.choice([0, 1, 2])):
         nm = fresh_name()
         scopes[-1][nm] = "int"; params.append(nm)
@@ -81,8 +96,9 @@ def gen_case(rng):
     decls = []
     for nm, k in sorted(pk.items()):
         decls.append({"var": "var %s = %d" % (nm, next(lits)), "const": "const %s = %d" % (nm, next(lits)), "func": "func %s() int { return %d }" % (nm, next(lits))}[k])
-    src = "package p\n\n" + "\n".join(decls) + "\n\nfunc f(%s) int {\n\tacc := 0\n%s\n\treturn acc\n}\n" % (", ".join(p + " int" for p in params), "\n".join(lines))
-    return {"src": src, "imports": imports, "nparams": len(params), "decls": decls}
+    src = "package p\n\n" + "\n".join(decls) + "\n\nfunc f%s(%s) int {\n\tacc := 0\n%s\n\treturn acc\n}\n" % (
+        ("[%s any]" % tparam) if tparam else "", ", ".join(p + " int" for p in params), "\n".join(lines))
+    return {"src": src, "imports": imports, "nparams": len(params), "decls": decls, "generic": bool(tparam)}
 
 
 FIXED = [
@@ -147,11 +163,12 @@ def eng_rename(pid, tier, wd, known, replay=None):
         c = cases[i]
         d = os.path.join(root, "r%d" % i)
         os.makedirs(d, exist_ok=True)
-        renamed = re.sub(r"^func f\(", "func fRenamed(", c["_resp"]["printed"], count=1)
+        renamed = re.sub(r"^func f([\[(])", r"func fRenamed\1", c["_resp"]["printed"], count=1)
         extra = "".join("var %s = 0\n" % nm for nm in c["imports"])      # the import names are taken in the file scope
         body = c["src"].replace("package p\n", "package r%d\n" % i, 1)
         args = ", ".join(str(3 + j) for j in range(c["nparams"]))
-        open(os.path.join(d, "p.go"), "w").write(body + "\n" + extra + "\n" + renamed + "\n\nfunc Check() bool { return f(%s) == fRenamed(%s) }\n" % (args, args))
+        inst = "[int]" if c.get("generic") else ""
+        open(os.path.join(d, "p.go"), "w").write(body + "\n" + extra + "\n" + renamed + "\n\nfunc Check() bool { return f%s(%s) == fRenamed%s(%s) }\n" % (inst, args, inst, args))
         mains.append(i)
     bad_build, bad_run = {}, []
     for attempt in range(4):
